@@ -5,7 +5,8 @@ import common
 import impl
 import treeops as T
 import c01
-from treeops import Real, F_ALL
+from treeops import Real, F_ALL, F_DEFAULT
+F_TEXT = (False, True, False, False)
 from impl import Document, TextNode, no_gc, new_tag_node, new_comment_node, new_processing_instruction_node
 
 REQ_VAL = ("From Coq Require Import List NArith.\nFrom Delb.Base Require Import PyStr.\n"
@@ -58,6 +59,10 @@ def attempts(real, rng, w):
         if live[n][0] == "tag":
             out.append(("retain-on-parentless", ("detach", n, True), "InvalidOperation"))
         out.append(("replace-root", ("replace", n, ("str", real.reserve(1)[0], "T")), "InvalidOperation"))
+    for r in [i for i in ids if live[i][0] in ("comment", "pi") and live[i][1] in (False, "docsib")]:
+        for n in loose:
+            if n != r and live[n][0] in ("comment", "pi"):
+                out.append(("replace-parentless-comment", ("replace", r, ("node", n)), "InvalidOperation"))
     # C: text / tag as sibling of a root
     for r in roots + loose:
         for src in (("str", real.reserve(1)[0], "T"), ("tag", real.reserve(1)[0], "td")):
@@ -98,6 +103,8 @@ def attempts(real, rng, w):
         if nk or rng.random() < 0.5:
             out.append(("index-out-of-range", ("setitem", p, nk + rng.randint(0 if nk else 1, 2), ("str", real.reserve(1)[0], "T")), "IndexError"))
         out.append(("index-out-of-range", ("delitem", p, nk + rng.randint(0, 2)), "IndexError"))
+        for k in range(1, nk + 2):
+            out.append(("negative-item-index", ("setitem", p, -k, ("str", real.reserve(1)[0], "T")), "IndexError"))
     # a document's root offered; an ancestor (or the node itself) offered  (findings 20, 21 of round 1, repaired)
     for r in roots:
         for p in tags:
@@ -168,12 +175,14 @@ def run_case(ctx, rng, h):
     rng.shuffle(cands)
     seen = {}
     for cat, o, expect in cands:
-        if seen.get(cat, 0) >= 3 or len(rec["steps"]) > 48:
+        if seen.get(cat, 0) >= 3 or len(rec["steps"]) > 52:
             continue
         seen[cat] = seen.get(cat, 0) + 1
-        exc = real.run(F_ALL, o)
+        # the refusals do not depend on the caller's filters (positions do: those calls run under ())
+        F = F_ALL if o[0] in ("insert", "setitem", "delitem") else rng.choice([F_DEFAULT, F_DEFAULT, F_DEFAULT, F_TEXT, F_ALL, F_ALL])
+        exc = real.run(F, o)
         w1 = real.dump_world()
-        rec["steps"].append({"op": o, "exc": exc, "w": w1, "category": cat, "expect": expect, "before": w})
+        rec["steps"].append({"op": o, "exc": exc, "w": w1, "category": cat, "expect": expect, "before": w, "F": F})
         if w1 != w:
             break
     return rec
@@ -187,7 +196,7 @@ def compare(ctx, rec, val):
     for idx, (st, (cr, tr, cw)) in enumerate(zip(rec["steps"], cs)):
         o = st["op"]
         case = {"docs": rec["docs"], "root_assigned_before": rec["root_assign"], "initial_world": rec["w0"],
-                "ops": [s["op"] for s in rec["steps"][:idx + 1]],
+                "ops": [[s.get("F", F_ALL), s["op"]] for s in rec["steps"][:idx + 1]],
                 "category": st["category"], "exception": st["exc"]}
         ctx.count(1, st["category"])
         if st["category"] != "legal":
@@ -271,6 +280,60 @@ def replay_open(f):
     return c01.replay_open(f)
 
 
+def chain_cases(ctx):
+    """a comment / PI without a parent that has comment / PI siblings (a chain of top-level nodes) is not detached: no
+    member of the chain may be added elsewhere, under any ambient filter.  Such chains are outside the Coq model (they
+    are reported as unmodelled there), so this is checked on the implementation only."""
+    filters = [None, impl.is_text_node, impl.is_tag_node, ()]
+    for filt in filters:
+        for member in range(3):
+            for how in ("append", "follow", "precede", "replace", "insert"):
+                with impl.altered_default_filters():
+                    c1 = impl.new_comment_node("first")
+                    c1.add_following_siblings(impl.new_processing_instruction_node("second", "x"), impl.new_comment_node("third"))
+                    chain = [c1] + list(c1.iterate_following_siblings())
+                    doc = Document("<r><a/>t</r>")
+                    target = doc.root
+                    before = ([str(x) for x in chain], str(doc))
+                offered = chain[member]
+                ctx.count(1, "parentless-chain")
+                ctx.nontrivial_case(("chain", str(filt), member, how))
+
+                def call():
+                    if how == "append":
+                        target.append_children(offered)
+                    elif how == "follow":
+                        target[0].add_following_siblings(offered)
+                    elif how == "precede":
+                        target[0].add_preceding_siblings(offered)
+                    elif how == "replace":
+                        target[0].replace_with(offered)
+                    else:
+                        target.insert_children(0, offered)
+                try:
+                    if filt is None:
+                        call()
+                    elif filt == ():
+                        with impl.altered_default_filters():
+                            call()
+                    else:
+                        with impl.altered_default_filters(filt):
+                            call()
+                    outcome = None
+                except Exception as e:  # noqa: BLE001
+                    outcome = type(e).__name__
+                with impl.altered_default_filters():
+                    c0 = chain[0]
+                    while c0.fetch_preceding_sibling() is not None:
+                        c0 = c0.fetch_preceding_sibling()
+                    after = ([str(c0)] + [str(x) for x in c0.iterate_following_siblings()], str(doc))
+                case = {"category": "parentless-chain", "filter": str(filt), "member": member, "call": how, "exception": outcome}
+                if outcome != "InvalidOperation":
+                    ctx.fail("a member of a chain of parentless comments / PIs was not refused with InvalidOperation (%s)" % outcome, case, classify)
+                elif after != before:
+                    ctx.fail("the trees differ after a refused call", dict(case, before=before, after=after), classify)
+
+
 def fixed_cases(ctx):
     """the witnesses of repaired findings must not fail again"""
     for f in common.load_findings():
@@ -288,11 +351,12 @@ def run(ctx, args):
     with no_gc():
         for b in range(1 if quick else 10):
             recs = [run_case(ctx, ctx.rng, b * 1000 + h) for h in range(90 if quick else 120)]
-            terms = [T.ghist(r["w0"], [(F_ALL, s["op"]) for s in r["steps"]]) for r in recs]
+            terms = [T.ghist(r["w0"], [(s.get("F", F_ALL), s["op"]) for s in r["steps"]]) for r in recs]
             vals = ctx.coq_eval("c09", T.REQ, terms, chunk=max(4, len(terms) // 16 + 1))
             for r, v in zip(recs, vals):
                 compare(ctx, r, v)
         validator_cases(ctx, 150 if quick else 3000)
+        chain_cases(ctx)
         fixed_cases(ctx)
     return ctx.finish(
         rule="states: 1-2 parsed documents (as in C01) + a pool of parentless nodes, 0-10 legal edits; then illegal "
